@@ -15,7 +15,8 @@ USE_TWINS = True
 TECHNIQUE = "Lean 4 theorems over the real-number reading of a twin model + tape-fed Float-twin differential run"
 RULE = ("time grids (odd/even lengths 2..40, four sampling steps, zero / positive / negative offsets) x bands relative "
         "to the Nyquist frequency (inside, touching 0, above Nyquist, straddling Nyquist, empty between bins, edges "
-        "exactly on FFT bins) x amplitude spec (number, vectorised callable, scalar-only callable, default Rayleigh "
+        "exactly on FFT bins - as the float bin value, and on np.arange(n)*dt grids as a quotient, product or round decimal "
+        "that is mathematically an exact multiple of the bin spacing) x amplitude spec (number, vectorised callable, scalar-only callable, default Rayleigh "
         "from the tape) x rms given / from temperature and resistance / missing x uniqueness 0.5, 1, 2, 2.7, 3, 4 x "
         "both classes; compared: freqs, amps, phases, rms, values on the own grid, on sub-windows, on windows shifted "
         "by whole samples beyond one period, off-grid times, and re-gridding requests sharing some but not all of "
@@ -174,7 +175,7 @@ def artefact_windows(n, dt, pad):
     return out
 
 
-def rand_case(run, cls=None, force=None, dt=None):
+def rand_case(run, cls=None, force=None, dt=None, big=False):
     rng = run.rng
     cls = cls or rng.choice(["fft", "full"])
     n = rng.choice([2, 3, 7, 8, 16, 17, 31, 32, 40])
@@ -188,8 +189,39 @@ def rand_case(run, cls=None, force=None, dt=None):
     ui = max(1, int(uniq))
     nall = ui * n
     df = 1.0 / (nall * dt)
-    kind = force or rng.choice(["inside", "inside", "touch0", "above", "straddle", "narrow", "edges"])
-    if kind == "inside":
+    kind = force or rng.choice(["inside", "inside", "touch0", "above", "straddle", "narrow", "edges", "exactedge"])
+    if kind == "exactedge":
+        # band edges that are mathematically EXACT multiples of the bin spacing 1/(u*n*dt) on a grid np.arange(n)*dt
+        # (e.g. 100 samples of 1 ns, band 150-350 MHz; 200 x 1 ns, uniqueness 5, band 100-300 MHz), written the way a
+        # user writes them: as a quotient, as a product, or as a round decimal - which bin the comparison `>=` / `<=`
+        # admits is then decided by the last bit, and the realised spectrum must sit on the PUBLISHED frequencies
+        t0, tform = 0.0, "array"
+        n = rng.choice([16, 20, 32, 40, 50, 64, 100, 128, 200]) if (cls == "fft" and big) else rng.choice([16, 20, 32, 40])
+        dt = rng.choice([1e-9, 0.5e-9, 2e-9, 0.25e-9, 1.25e-9, 0.1e-9, 0.4e-9])
+        uniq = rng.choice([1, 1, 2, 3, 4, 5]) if n <= 100 else rng.choice([1, 5])
+        if n * uniq > 260 and cls == "fft":
+            n = 200 if uniq == 5 else n
+        fny = 1 / (2 * dt)
+        ui = max(1, int(uniq))
+        nall = ui * n
+        df = 1.0 / (nall * dt)
+        k1 = rng.randint(1, max(1, nall // 2 - 2))
+        k2 = rng.randint(k1 + 1, max(k1 + 1, nall // 2 - 1))
+
+        def edge(k):
+            w = rng.choice(["quotient", "product", "decimal", "decimal"])
+            if w == "quotient":
+                return k / (nall * dt)
+            if w == "product":
+                return k * (1.0 / (nall * dt))
+            return float("%.9g" % (k / (nall * dt)))
+        fmin, fmax = edge(k1), edge(k2)
+        if rng.random() < 0.3:      # only one of the two edges on a bin
+            if rng.random() < 0.5:
+                fmax = (k2 + 0.37) * df
+            else:
+                fmin = (k1 - 0.41) * df
+    elif kind == "inside":
         a, b = sorted([rng.uniform(0.05, 0.9), rng.uniform(0.05, 0.9)])
         fmin, fmax = a * fny, max(b, a + 0.05) * fny
     elif kind == "touch0":
@@ -780,6 +812,25 @@ def _oracle(inp):
             kbad = int(np.argmax(np.where(outside, spec, 0)))
             out.append(("out-of-band", [kbad, float(bins[kbad]), float(spec[kbad])], 0.0,
                         "periodogram over one period shows power outside the requested band", None))
+        # (4b) bin by bin: the realised spectrum sits on the PUBLISHED frequencies with their amplitudes (interior bins:
+        #      |X_k|/n = rms*sqrt(2/N)*A/2), every other bin is empty - in particular f_min - df and f_max + df
+        want_spec = np.zeros(nall // 2 + 1)
+        known = np.ones(nall // 2 + 1, dtype=bool)
+        c_ = nz.rms * math.sqrt(2 / N)
+        for f_, a_ in zip(nz.freqs, nz.amps):
+            kb = int(round(float(f_) * nall * dte))
+            if 0 <= kb <= nall // 2:
+                if kb == 0 or (nall % 2 == 0 and kb == nall // 2):
+                    known[kb] = False          # DC (amplitude zeroed) / Nyquist (K4) are judged elsewhere
+                else:
+                    want_spec[kb] = c_ * abs(float(a_)) / 2
+        devs = np.where(known, np.abs(spec - want_spec), 0.0)
+        if np.max(devs) > 1e-9 * amp_scale + 1e-300:
+            kbad = int(np.argmax(devs))
+            out.append(("spectrum", [kbad, float(bins[kbad]), float(spec[kbad])], [kbad, float(bins[kbad]), float(want_spec[kbad])],
+                        "the spectrum of the realised waveform over one period does not sit on the published frequencies: bin "
+                        "%d (%.6g Hz; band %r-%r, df %.6g) carries %.3g instead of %.3g"
+                        % (kbad, bins[kbad], case["fmin"], case["fmax"], 1.0 / (nall * dte), spec[kbad], want_spec[kbad]), None))
         # (5) unit amplitudes, all bins strictly between DC and Nyquist: mean square over one period = rms^2
         if case["spec"][0] == "const" and case["spec"][1] == 1.0 and nz.freqs[0] > 0 and not k4 and \
                 not (nall % 2 == 0 and nz.freqs[-1] == bins[-1]):
@@ -986,7 +1037,10 @@ def gen_oracle_input(run, i):
                 "rms": rng.uniform(0.1, 2), "T": None, "R": None}
         return {"case": case, "seed": rng.randrange(2 ** 31), "shifts": [rng.randint(-40, 40)], "commensurate": delta,
                 "regrids": regrid_specs(run, case, 4)}
-    case = rand_case(run, force=rng.choice(["inside", "inside", "touch0", "above", "straddle", "narrow", "edges"]))
+    case = rand_case(run, big=True, force=rng.choice(["inside", "inside", "touch0", "above", "straddle", "narrow", "edges",
+                                                      "exactedge", "exactedge"]))
+    if case["band"] == "exactedge":
+        run.count("oracle_exact_edge_cases")
     case["band"] = "oracle"
     if case["cls"] == "full" and case["n"] >= 3 and rng.random() < 0.15:
         # (f_max - f_min) * duration * uniqueness exactly on an integer: int() of the float product may fall either
